@@ -159,6 +159,7 @@ type batchOpts struct {
 	onlyCalls bool
 	race      bool // build the runner with the race detector
 	files     int  // number of regular source files the programs are spread over (each with its own import style)
+	tinyTest  bool // add a small go-co test file to the package: with WithLoadTest every file of the package is then visited twice (package and test variant share the syntax trees), as in every cogen run on a package with co test files
 	timeout time.Duration
 }
 
@@ -239,6 +240,9 @@ func (t *tools) newBatch(progs []*Program, opts batchOpts) (*batch, error) {
 }
 
 func (b *batch) hasTestFiles() bool {
+	if b.opts.tinyTest {
+		return true
+	}
 	for _, p := range b.progs {
 		if p.TestFile {
 			return true
@@ -276,6 +280,11 @@ func (b *batch) render() *stageFailure {
 		}
 		reg[i%nfiles] = append(reg[i%nfiles], p)
 		i++
+	}
+	if b.opts.tinyTest && len(test) == 0 && i > 0 {
+		tiny := &Program{Name: "TT9", Profile: "tiny-test", TestFile: true}
+		tiny.Decls = []*Decl{{Kind: "gen", Name: "TT9G", Params: []Param{{"a", "int"}}, Elem: "int", Body: []*Stmt{yS(v("a")), yS(bin("+", v("a"), lit(1)))}}}
+		test = append(test, tiny)
 	}
 	if i == 0 && len(test) > 0 {
 		// only test-file programs left (isolation of a failing batch): a package needs a non-test file
